@@ -191,6 +191,9 @@ def _angle(a, b, c):
     return math.degrees(math.acos(max(-1.0, min(1.0, cs))))
 
 
+PHOSPHATE_ALIAS = {"O1P": "OP1", "OP1": "O1P", "O2P": "OP2", "OP2": "O2P"}
+
+
 def _run_job(job):
     from .. import runner
     from .c12 import events_for_spec, opts_record
@@ -262,6 +265,15 @@ def _run_job(job):
                     # the heavy atom that now carries the name of an input atom of this residue (a flip keeps the *FLIP copy
                     # under the original name): it stands for that input atom
                     cur[a.name] = (first_named[(rkey, a.name)], [a.x, a.y, a.z], a)
+                elif not a.name.startswith("H"):
+                    # ... or the name the topology / the repair step treats as its other spelling (OP1 = O1P, O'' = OXT, C5* = C5'),
+                    # when the input atom under that spelling is gone: deleting an input atom and rebuilding it elsewhere is a move
+                    ref_ = getattr(getattr(rr, "reference", None), "map", {}) or {}
+                    alts = {PHOSPHATE_ALIAS.get(a.name), getattr(ref_.get(a.name), "altname", None)} - {None, ""}
+                    for alt in alts:
+                        if (rkey, alt) in first_named and not rr.has_atom(alt):
+                            cur[a.name] = (first_named[(rkey, alt)], [a.x, a.y, a.z], a)
+                            break
             for nm, (p0, p1, a) in cur.items():
                 d = _dist(p0, p1)
                 if d > anymove:
